@@ -11,7 +11,8 @@ type packetDecoder interface {
 	getInt64() (int64, error)
 	getVarint() (int64, error)
 	getUVarint() (uint64, error)
-	getArrayLength() (int, error)
+	getArrayLength() (int, error)         // a null array reads as empty
+	getNullableArrayLength() (int, error) // -1 for a null array
 	getCompactArrayLength() (int, error)
 	getBool() (bool, error)
 	getEmptyTaggedFieldArray() (int, error)
